@@ -41,7 +41,30 @@ type EngScenario struct {
 	Lookups  []int      `json:"lookups"`  // post-run GetComponentByName calls
 	Seed     int64      `json:"seed"`
 	Sparse   bool       `json:"sparse"` // snapshots list only non-empty entries (large N)
+	Procs    []bool     `json:"procs"`  // user post-processors that are components themselves; true = LazyInit
 }
+
+// a user post-processor with a lifecycle of its own (pass-through callbacks)
+type xproc struct {
+	e *env
+	p int
+}
+
+func (x *xproc) Naming() string { return fmt.Sprintf("zx-proc%d", x.p) }
+func (x *xproc) PostProcessBeforeInitialization(c any, name string) (any, error) {
+	return c, nil
+}
+func (x *xproc) PostProcessAfterInitialization(c any, name string) (any, error) {
+	return c, nil
+}
+func (x *xproc) Init() error {
+	x.e.emit("procInit", x.p, nil)
+	return nil
+}
+
+type xprocLazy struct{ xproc }
+
+func (*xprocLazy) LazyInit() {}
 
 type Nd interface{ NodeID() int }
 
@@ -530,6 +553,16 @@ func runEngScenario(sc *EngScenario) []map[string]any {
 		ordered = append(ordered, comps[1:]...)
 	}
 	ordered = append(ordered, r)
+	if sc.Procs == nil {
+		sc.Procs = []bool{}
+	}
+	for i, lazy := range sc.Procs {
+		if lazy {
+			ordered = append(ordered, &xprocLazy{xproc{e, i + 1}})
+		} else {
+			ordered = append(ordered, &xproc{e, i + 1})
+		}
+	}
 	var err error
 	panicked := false
 	func() {
